@@ -843,7 +843,7 @@ def run_stack(ctx, binfo):
     import random as _r
     rr = _r.Random(ctx.seed)
     extra = [rr.randrange(2000, 20000) for _ in range(2)]
-    plan = [(cb, 30000), (cd, 25000), (cd, 3000), (cd, 12000)] + [(cd, x) for x in extra] if ctx.tier == "quick" else \
+    plan = [(cb, 120000), (cd, 25000), (cd, 3000), (cd, 12000)] + [(cd, x) for x in extra] if ctx.tier == "quick" else \
         [(cb, 100000), (cd, 40000), (cb, 200000), (cd, 3000), (cd, 8000), (cd, 12000), (cd, 16000), (cd, 20000)] + [(cd, x) for x in extra]
     for binp, turns in plan:
         rc, out, dt = sh([binp, "stack", str(turns), str(ctx.seed), str(2 * 1024 * 1024)], timeout=3000)
